@@ -297,41 +297,7 @@ def scan():
     return {"status": "discharged", "detail": "set-iteration sites (all intercepted by the shim): %r" % (sites,), "queries": max(len(sites), 1)}
 
 
-SEED_SCRIPT = r'''
-import sys, ast
-sys.path.insert(0, "/verif")
-import lib.prelude
-import harness.C07 as C07
-from doctrans import parse, emit
-out = []
-for style in range(3):
-    for cfg in C07.CONFIGS["quick"]:
-        npos, nd, nkw, kwmask, has_kw, docmask, perm = cfg
-        names = list(C07.POS[:npos]) + list(C07.KWO[:nkw]) + (["kw"] if has_kw else [])
-        documented = C07._documented(names, docmask, perm)
-        if style == 0 and "kw" in documented:
-            continue
-        fd = C07.mk_fn(npos, nd, nkw, kwmask, has_kw, 0, style, documented, (11, 12, 13, 21, 22))
-        ir = parse.function(fd)
-        out.append(repr(list(ir["params"].items())))
-        out.append(ast.unparse(ast.fix_missing_locations(emit.function(ir, "f", None, word_wrap=False))))
-import hashlib
-print(hashlib.sha256("\n".join(out).encode()).hexdigest())
-'''
-
-
-def seed_sweep(n):
-    """process-level confirmation used on replay (and once per run as a cheap cross-check): identical digest under n hash seeds"""
-    digs = set()
-    for seed in list(range(n)) + ["random"]:
-        env = {"PYTHONHASHSEED": str(seed), "PATH": "/usr/bin:/bin", "PYTHONDONTWRITEBYTECODE": "1"}
-        p = subprocess.run([sys.executable, "-c", SEED_SCRIPT], capture_output=True, text=True, env=env)
-        if p.returncode != 0:
-            return {"status": "inconclusive", "detail": p.stderr[-400:]}
-        digs.add(p.stdout.strip())
-    if len(digs) == 1:
-        return {"status": "discharged", "detail": "identical output digest under PYTHONHASHSEED 0..%d and random" % (n - 1), "queries": n + 1}
-    return {"status": "violated", "detail": "%d different outputs across hash seeds" % len(digs), "cex": {"seeds": n}, "queries": n + 1}
+from harness.C07 import SEED_SCRIPT, seed_sweep  # noqa: E402,F401
 
 
 def obligations(tier, seed):
